@@ -152,7 +152,17 @@ func (p *Prog) Func(pkg, name string) *ssa.Function {
 	if sel == nil {
 		return nil
 	}
-	return p.SSA.MethodValue(sel)
+	fn := p.SSA.MethodValue(sel)
+	if fn != nil && fn.Synthetic != "" && ptr {
+		// the method is declared on the value type: (*T).M is only the
+		// compiler's forwarding wrapper; hand out the declared method
+		if vsel := p.SSA.MethodSets.MethodSet(obj.Type()).Lookup(sp.Pkg, mn); vsel != nil {
+			if vf := p.SSA.MethodValue(vsel); vf != nil && vf.Synthetic == "" {
+				return vf
+			}
+		}
+	}
+	return fn
 }
 
 // MustFunc is Func that records an unresolved anchor.
